@@ -465,6 +465,43 @@ class Runner:
                              disk_digest(wd), handle_fingerprint(h)])
         return canon, ok, (result,) + summary
 
+    def readonly_attempts(self, cfg, case, where, model: Model, r) -> None:
+        acc = self.acc
+        disk = model.disk
+        present = sorted(disk)
+        absent = [nm for nm in NAMES if nm not in disk] or ['zz/new.bin']
+        k = len(present) % 3
+        attempts = [
+            ('add_file', lambda: r.add_file(form_of(absent[0], FORMS[k]), b'12345', arch_index=cfg[2])),
+            ('new_file', lambda: r.new_file(form_of(absent[0], FORMS[(k + 1) % 3]))),
+            ('write_dirfile', lambda: r.write_dirfile()),
+            ('add_folder', lambda: r.add_folder(self.folder_src)),
+        ]
+        if present:
+            tgt = present[k % len(present)]
+            attempts += [
+                ('FileInfo.write', lambda: r[form_of(tgt, FORMS[(k + 2) % 3])].write(b'other data', cfg[2])),
+                ('FileInfo.write(same data)', lambda: r[tgt].write(disk[tgt], cfg[2])),
+                ('del', lambda: r.__delitem__(form_of(tgt, FORMS[k]))),
+                ('add_file(existing)', lambda: r.add_file(tgt, b'12345', arch_index=cfg[2])),
+            ]
+        before = disk_digest(self.workdir)
+        for label, fn in attempts:
+            try:
+                fn()
+            except Exception:  # noqa: BLE001 - any exception is a rejection
+                continue
+            acc.fail('readonly_accepted', case, where + f"{label} on a freshly opened mode='r' archive returned "
+                     f'without raising', **self.sig(cfg, model, op=label, why='readonly'))
+        after_view = view_of(r, None)
+        if disk_digest(self.workdir) != before:
+            acc.fail('readonly_state_changed', case, where + "rejected mutations on a mode='r' archive changed the "
+                     'files on disk', **self.sig(cfg, model, op='any', why='readonly'))
+        elif after_view != disk:
+            acc.fail('readonly_state_changed', case, where + "after the rejected mutations the mode='r' handle lists/reads "
+                     f'{ {k2: (bdesc(v) if isinstance(v, bytes) else v) for k2, v in after_view.items()} }',
+                     **self.sig(cfg, model, op='any', why='readonly'))
+
     # -- the state oracle ---------------------------------------------------------------------
     def check_state(self, cfg, hist, case, model: Model, h) -> tuple:
         acc = self.acc
@@ -583,6 +620,10 @@ class Runner:
         if va is not None and listing_ok and va != all_verify:
             acc.fail('verify_all_inconsistent', case, where + f'verify_all()={va} but per-file verify() all-true={all_verify}',
                      **self.sig(cfg, model))
+
+        # (2b) the read-only handle must reject every mutation and stay as it is (files on disk included)
+        if listing_ok:
+            self.readonly_attempts(cfg, case, where, model, r)
 
         # (3) independent decoder on the raw bytes
         entries, problems = decode_archive(wd, kind)
